@@ -106,6 +106,14 @@ class _FakeStream:
     def is_closing(self): return False
 
 
+_LOG_SINK = []
+
+
+class _ErrHandler(logging.Handler):
+    def emit(self, record):
+        if record.levelno >= logging.ERROR: _LOG_SINK.append(record.getMessage())
+
+
 class _Env:
     """real Master + AddonManager + Proxyserver addon (its `servers` replaced by stub instances exposing `listen_addrs`
     and `mode.transport_protocol`) + the real ProxyConnectionHandler.open_connection; the socket primitives
@@ -118,13 +126,12 @@ class _Env:
         from mitmproxy.proxy import mode_specs
         self.mode = mode_specs.ProxyMode.parse("regular")
         self.errors = []
-        env = self
-
-        class H(logging.Handler):
-            def emit(self, record):
-                if record.levelno >= logging.ERROR: env.errors.append(record.getMessage())
+        self.current = None
+        global _LOG_SINK
+        _LOG_SINK = self.errors
         lg = logging.getLogger("mitmproxy.addonmanager")
-        lg.addHandler(H()); lg.propagate = False; lg.setLevel(logging.ERROR)
+        if not any(isinstance(x, _ErrHandler) for x in lg.handlers):
+            lg.addHandler(_ErrHandler()); lg.propagate = False; lg.setLevel(logging.ERROR)
 
         class Handler(mode_servers.ProxyConnectionHandler):
             def log(s, *a, **k): pass
@@ -146,8 +153,15 @@ class _Env:
 
     def run(self, case):
         dest = unhx(case["dest_hex"]).decode("utf-8", "surrogateescape")
-        self.ps.servers = [NS(listen_addrs=tuple(_sockname(h, p) for h, p in s["addrs"]),
-                              mode=NS(transport_protocol=s["tp"])) for s in case["servers"]]
+        # the real `Servers` container keeps its identity; its instances are stubs, and — as Servers.update does —
+        # `changed` is sent exactly when the set of listeners really changes between two calls
+        key = repr(case["servers"])
+        if key != self.current:
+            self.ps.servers._instances = {
+                i: NS(listen_addrs=tuple(_sockname(h, p) for h, p in s["addrs"]), mode=NS(transport_protocol=s["tp"]))
+                for i, s in enumerate(case["servers"])}
+            self.current = key
+            self.loop.run_until_complete(self.ps.servers.changed.send())
         self.errors.clear()
         trace = []
         ok = bool(case["ok"])
@@ -225,9 +239,11 @@ class Check(PropertyCheck):
             "resolver-only spellings) x every listen configuration (9 hosts x tcp/udp/both, dual-stack, multi-server, empty) "
             "x tcp/udp x listen port/other port; then random: random 127/8 and neighbours in plain/mapped/hex notation, "
             "random case flips and dots on localhost, single-character mutations. distinct = (dest, port, transport, "
-            "servers); non-trivial = at least one server with an address.")
-    budget = {"quick": 16000, "thorough": 300000}
-    time_budget = {"quick": 25, "thorough": 600}
+            "servers); non-trivial = at least one server with an address. Histories: 2-5 server_connect / open_connection calls "
+            "on ONE fresh Proxyserver instance whose listener set changes between calls (Servers.changed is sent on every real "
+            "change); every call is judged by the per-call oracle and compared with the stateless model.")
+    budget = {"quick": 12000, "thorough": 250000}
+    time_budget = {"quick": 13, "thorough": 500}
     fingerprints = ["mitmproxy.addons.proxyserver:Proxyserver.server_connect", "mitmproxy.addons.proxyserver:_is_own_host",
                     "mitmproxy.addons.proxyserver:_unmap", "mitmproxy.proxy.server:ConnectionHandler.open_connection",
                     "mitmproxy.proxy.mode_servers:ProxyConnectionHandler.handle_hook",
@@ -317,7 +333,30 @@ class Check(PropertyCheck):
                     for tp in ("tcp", "udp"):
                         for dport in (ports[0], ports[0] + 1):
                             yield self._case(dest, dport, tp, (i + j) % 2, servers)
+        # histories: first an unrelated upstream connection, then the listeners change, then a self-connect to the new one
+        k = 0
+        for i, a in enumerate(LISTEN_CONFIGS):
+            for b in (LISTEN_CONFIGS[(i + 7) % len(LISTEN_CONFIGS)], LISTEN_CONFIGS[(i + 1) % len(LISTEN_CONFIGS)], []):
+                pb = sorted({p for s in b for _, p in s["addrs"]}) or [8080]
+                pa = sorted({p for s in a for _, p in s["addrs"]}) or [8080]
+                for dest in ("localhost", "127.0.0.2", "::ffff:127.0.0.1", "0.0.0.0", "example.com"):
+                    k += 1
+                    if tier != "thorough" and k % 3: continue
+                    tp = "tcp" if k % 2 else "udp"
+                    yield {"hist": [self._case("example.com", 443, tp, 1, b), self._case(dest, pa[0], tp, 1, a)]}
+                    yield {"hist": [self._case(dest, pb[0], tp, 0, b), self._case(dest, pa[0], tp, 1, a),
+                                    self._case(dest, pb[0], tp, 1, b)]}
         while True:
+            if rng.chance(0.15):
+                steps = []
+                servers = rng.pick(LISTEN_CONFIGS)
+                for _ in range(rng.randint(2, 5)):
+                    if rng.chance(0.5): servers = rng.pick(LISTEN_CONFIGS)
+                    ports = sorted({p for s in servers for _, p in s["addrs"]}) or [8080]
+                    steps.append(self._case(self._random_dest(rng) if rng.chance(0.5) else rng.pick(DESTS),
+                                            rng.pick(ports), rng.pick(["tcp", "udp"]), rng.randint(0, 1), servers))
+                yield {"hist": steps}
+                continue
             servers = rng.pick(LISTEN_CONFIGS)
             if rng.chance(0.3):
                 servers = _servers([(rng.pick(["tcp", "udp", "both"]),
@@ -329,7 +368,18 @@ class Check(PropertyCheck):
 
     # ---------------- implementation ----------------
     def impl(self, case):
-        e = env()
+        if "hist" in case:
+            # 2-5 upstream connections handled by ONE fresh Proxyserver instance, the listener set changing in between
+            e = _Env()
+            try:
+                return {"steps": [self._impl_step(e, st) for st in case["hist"]]}
+            finally:
+                e.loop.close()
+                global _LOG_SINK
+                if _ENV is not None: _LOG_SINK = _ENV.errors
+        return self._impl_step(env(), case)
+
+    def _impl_step(self, e, case):
         h, srv, trace = e.run(case)
         err = h.err_after_hook
         if err is None: state = "open"
@@ -344,6 +394,12 @@ class Check(PropertyCheck):
         #  for the same transport — its explicit listen address, any loopback address or name when listening on loopback
         #  or all interfaces, or the wildcard address itself; such requests fail with a destination-unknown error instead
         #  of looping."
+        if "hist" in case:
+            # whether a call's destination denotes an own socket depends only on the listeners at the time of that call
+            fails = []
+            for i, (st, o) in enumerate(zip(case["hist"], obs["steps"])):
+                fails += [f"call {i + 1} of {len(case['hist'])} on one Proxyserver instance: {f}" for f in self.oracle(st, o)]
+            return fails
         fails = []
         if obs["addon_errors"] or obs["state"].startswith("other"):
             fails.append(f"server_connect hook failed: {obs['addon_errors']} {obs['state']}")
@@ -360,6 +416,9 @@ class Check(PropertyCheck):
 
     # ---------------- model tie ----------------
     def model_lines(self, case):
+        if "hist" in case:
+            ls = [self.model_lines(st) for st in case["hist"]]
+            return None if any(l is None for l in ls) else [x for l in ls for x in l]
         dest = unhx(case["dest_hex"])
         if any(b >= 0x80 for b in dest):
             return None                       # model domain: ASCII host texts
@@ -371,18 +430,27 @@ class Check(PropertyCheck):
         return [f"sc {case['dest_hex']} {case['dport']} {case['tp']} {case['ok']} {srv}"]
 
     def model_obs(self, case, replies):
-        return replies[0]
+        return list(replies) if "hist" in case else replies[0]   # the model is stateless: compared call by call
 
     def impl_view(self, case, obs):
+        if "hist" in case:
+            return [self.impl_view(st, o) for st, o in zip(case["hist"], obs["steps"])]
         # state and trace come from the code; the middle field is the independent Python statement of the property,
         # compared with the Lean specification `denotesOwnSocket`
         return f"{obs['state']} {'own' if denotes_own_socket(case) else 'other'} {','.join(obs['trace'])}"
 
     def classify(self, case, obs):
+        if "hist" in case:
+            return ("hist",) + tuple(self.classify(st, o) for st, o in zip(case["hist"], obs["steps"]))
         if not any(s["addrs"] for s in case["servers"]): return None
         return (case["dest_hex"], case["dport"], case["tp"], str(case["servers"]))
 
     def branches(self, case, obs):
+        if "hist" in case:
+            out = [f"hist:len{len(case['hist'])}"]
+            for a, b in zip(case["hist"], case["hist"][1:]):
+                out.append("hist:listeners-changed" if a["servers"] != b["servers"] else "hist:listeners-same")
+            return out + ["state:" + o["state"] for o in obs["steps"]]
         out = ["state:" + obs["state"], "spec:" + ("own" if denotes_own_socket(case) else "other"), "tp:" + case["tp"]]
         modes = {s["tp"] for s in case["servers"]}
         if "both" in modes: out.append("listen:both")
@@ -390,11 +458,19 @@ class Check(PropertyCheck):
         return out
 
     def neighbours(self, case, rng):
+        if "hist" in case:
+            for st in case["hist"]: yield st
+            return
         for dest in DESTS:
             for tp in ("tcp", "udp"):
                 yield self._case(dest, case["dport"], tp, case["ok"], case["servers"])
 
     def shrink_candidates(self, case):
+        if "hist" in case:
+            h = case["hist"]
+            for i in range(len(h)):
+                if len(h) > 1: yield {"hist": h[:i] + h[i + 1:]}
+            return
         for i in range(len(case["servers"])):
             c = dict(case); c["servers"] = case["servers"][:i] + case["servers"][i + 1:]; yield c
         for i, s in enumerate(case["servers"]):
